@@ -1,0 +1,9 @@
+//go:build !verif
+
+package common
+
+// VerifPoint is a fault-injection point used only by the verification build
+// (build tag "verif"). Without the tag it is an inlined no-op.
+func VerifPoint(op, path string) error { return nil }
+
+func verifExit(s string) {}
